@@ -92,7 +92,7 @@ func (p *jparser) lit(w string) {
 }
 
 func (p *jparser) value(depth int) *jnode {
-	if p.pos >= len(p.s) || depth > 2000 {
+	if p.pos >= len(p.s) || depth > 10000 { // encoding/json refuses nesting beyond 10000
 		p.fail()
 	}
 	switch c := p.s[p.pos]; {
@@ -445,6 +445,48 @@ func (f *jfeatures) walk(n *jnode, depth int) {
 	}
 }
 
+// ---- render size ----------------------------------------------------------------------------------------------------
+
+// The size ToXJSON charges the value of a document before writing it (excellent/types/base.go MaxRenderSize: the number
+// of values, plus the bytes of texts and property names and the digits of numbers, plus for each value the number of
+// arrays and objects it is nested in).  Only for documents without unrepresentable content.
+// the charge per level of nesting, measured on the code: what SpendRenderSize takes for [[]] beyond its two values
+func depthCharge() int {
+	budget := 100
+	types.SpendRenderSize(types.NewXArray(types.NewXArray()), true, &budget)
+	return 100 - budget - 2
+}
+
+var depthChargeNow = depthCharge()
+
+func jsonRenderSize(n *jnode, depth int) int {
+	size := 1 + depthChargeNow*depth
+	switch n.kind {
+	case jStr:
+		size += len(string(n.s))
+	case jNum:
+		e := new(big.Int).Abs(n.e)
+		size += n.m.BitLen()/3 + int(e.Int64())
+	case jArr:
+		for _, c := range n.arr {
+			size += jsonRenderSize(c, depth+1)
+		}
+	case jObj:
+		last := map[string]int{}
+		for i, k := range n.keys {
+			last[string(k)] = i
+		}
+		for k, i := range last {
+			if k == "__default__" {
+				size += jsonRenderSize(n.vals[i], depth)
+			} else {
+				size += len(k) + jsonRenderSize(n.vals[i], depth+1)
+			}
+		}
+	}
+	return size
+}
+
 // ---- Coq emission -------------------------------------------------------------------------------------------------
 
 func coqRunes(rs []rune) string {
@@ -681,6 +723,20 @@ var jsonCorpus = []string{
 	`[1,1.0,1.00,10e-1,0.1e1]`, `{"z":1,"y":2,"x":3,"Z":4,"_":5,"~":6,"0":7}`, `{"a":[],"b":{},"c":"","d":0,"e":false,"f":null}`,
 }
 
+// documents at the render size limit: nesting alone (n arrays inside one another cost n(n+1)/2), nesting plus a string
+// that lands exactly on / one over the limit, many shallow arrays, one long string
+func limitCorpus() []string {
+	nest := func(n int, inner string) string { return strings.Repeat("[", n) + inner + strings.Repeat("]", n) }
+	wide := "[" + strings.TrimSuffix(strings.Repeat(nest(45, "")+",", 1000), ",") + "]"
+	return []string{
+		nest(1400, ""), nest(1413, ""), nest(1414, ""), nest(1420, ""), nest(2000, ""), nest(5000, ""),
+		nest(1400, `"`+strings.Repeat("a", 17899)+`"`), nest(1400, `"`+strings.Repeat("a", 17900)+`"`),
+		nest(1400, `"`+strings.Repeat("é", 8949)+`x"`), nest(1400, `"`+strings.Repeat("é", 8950)+`"`),
+		wide, `{"k":` + nest(1412, "") + `}`, `{"k":` + nest(1413, "") + `}`, `{"__default__":` + nest(1413, "") + `}`, `{"__default__":` + nest(1414, "") + `}`,
+		`"` + strings.Repeat("a", 999999) + `"`, `"` + strings.Repeat("a", 1000000) + `"`, "[" + strings.Repeat("0,", 499999) + "0]", "[" + strings.Repeat("0,", 500000) + "0]",
+	}
+}
+
 func mutateJSONText(r *hx.Rand, s string) string {
 	b := []rune(s)
 	if len(b) == 0 {
@@ -709,11 +765,12 @@ func runJSON(o *hx.Opts, res *hx.Result, r *hx.Rand) {
 
 	n := o.Count(500, 20000)
 	gr := r.Fork("documents")
-	for i := 0; i < len(jsonCorpus)+n; i++ {
+	corpus := append(append([]string{}, jsonCorpus...), limitCorpus()...)
+	for i := 0; i < len(corpus)+n; i++ {
 		var doc string
 		planted := ""
-		if i < len(jsonCorpus) {
-			doc = jsonCorpus[i]
+		if i < len(corpus) {
+			doc = corpus[i]
 		} else {
 			tree := genJSONTree(gr, 0)
 			if gr.Chance(1, 12) { // one special feature, in a container
@@ -746,9 +803,12 @@ func runJSON(o *hx.Opts, res *hx.Result, r *hx.Rand) {
 
 		in, valid := parseJSONDoc(doc)
 		if valid != json.Valid([]byte(doc)) {
-			panic(fmt.Sprintf("harness parser and encoding/json disagree on the validity of %q", doc))
+			panic(fmt.Sprintf("harness parser and encoding/json disagree on the validity of %.300q (%d bytes)", doc, len(doc)))
 		}
 		input := map[string]any{"kind": "json", "document": doc}
+		if len(doc) > 2000 {
+			input = map[string]any{"kind": "json", "document": doc[:200] + "...", "bytes": len(doc)}
+		}
 		if !valid {
 			res.Dist("json:invalid-document")
 			res.Eval("json:"+doc, false)
@@ -756,7 +816,7 @@ func runJSON(o *hx.Opts, res *hx.Result, r *hx.Rand) {
 		}
 		var f jfeatures
 		f.walk(in, 0)
-		res.Eval("json:"+doc, f.depth >= 2)
+		res.Eval(fmt.Sprintf("json:%d:%.300s", len(doc), doc), f.depth >= 2)
 		res.Dist(fmt.Sprintf("json:depth=%d", f.depth))
 		for name, c := range map[string]int{"duplicate-keys": f.dupKeys, "case-variant-keys": f.caseKeys, "exponent-numbers": f.expNum, "long-numbers": f.bigNums,
 			"__default__-key": f.defaultKey, "exponent-beyond-1000": f.bigExp, "lone-surrogate": f.surrogate} {
@@ -778,12 +838,17 @@ func runJSON(o *hx.Opts, res *hx.Result, r *hx.Rand) {
 			class = "json-roundtrip:number-exponent-beyond-1000"
 		case f.surrogate > 0:
 			class = "json-roundtrip:lone-surrogate-escape"
+		case jsonRenderSize(in, 0) > types.MaxRenderSize:
+			class = "json-roundtrip:value-over-render-size"
+			res.Dist("json:over-render-size")
+		case jsonRenderSize(in, 0) > types.MaxRenderSize*9/10:
+			res.Dist("json:within-10%-of-render-size")
 		}
 
 		res.OracleChecks++
 		var out *jnode
 		if txt, isText := written.(*types.XText); !isText {
-			res.Fail(class, input, fmt.Sprintf("json(parse_json(doc)) is %s", types.String(written)))
+			res.Fail(class, input, fmt.Sprintf("json(parse_json(doc)) is %.200s (render size %d)", types.String(written), jsonRenderSize(in, 0)))
 		} else {
 			o2, ok := parseJSONDoc(txt.Native())
 			if !ok {
@@ -792,17 +857,23 @@ func runJSON(o *hx.Opts, res *hx.Result, r *hx.Rand) {
 			}
 			out = o2
 			if !jsonEquiv(in, out) {
-				res.Fail(class, input, fmt.Sprintf("json(parse_json(doc)) = %s", txt.Native()))
+				res.Fail(class, input, fmt.Sprintf("json(parse_json(doc)) = %.200s", txt.Native()))
 			}
 		}
 		if i%97 == 3 {
-			res.Sample(map[string]any{"document": doc, "written": types.String(written)})
+			res.Sample(map[string]any{"document": fmt.Sprintf("%.300s", doc), "written": fmt.Sprintf("%.300s", types.String(written))})
 		}
 		outCoq := "None"
 		if out != nil {
 			outCoq = "(Some " + coqJSON(out) + ")"
 		}
-		w.add(fmt.Sprintf("KJson %s %s", coqJSON(in), outCoq), input, types.String(written))
+		if len(doc) > 40000 {
+			continue // direct oracle only: too large for a cases file
+		}
+		if len(doc) > 2000 {
+			input = map[string]any{"kind": "json", "document": doc[:200] + "...", "bytes": len(doc)}
+		}
+		w.add(fmt.Sprintf("KJson %s %s %s", hx.Z(int64(depthChargeNow)), coqJSON(in), outCoq), input, fmt.Sprintf("%.200s", types.String(written)))
 	}
 	w.flush()
 }
